@@ -272,6 +272,7 @@ def _do(l, op, a, b, flag):
 
 
 def jobs(tier):
+    T = 90 if tier == "quick" else 600
     N = 6 if tier == "quick" else 8
     M = 2 if tier == "quick" else 3
     out = []
@@ -279,14 +280,14 @@ def jobs(tier):
         for n in range(0, N + 1):
             if op in ("extend", "pre_extend"):
                 for m in range(0, M + 1):
-                    out.append(Job("C08", "harness.c08", "step", {"op": op, "n": n, "m": m}, timeout=300,
+                    out.append(Job("C08", "harness.c08", "step", {"op": op, "n": n, "m": m}, timeout=T,
                                    name="step[%s,n=%d,m=%d]" % (op, n, m)))
             else:
-                out.append(Job("C08", "harness.c08", "step", {"op": op, "n": n}, timeout=300,
+                out.append(Job("C08", "harness.c08", "step", {"op": op, "n": n}, timeout=T,
                                name="step[%s,n=%d]" % (op, n)))
     for op in ["move_after", "move_to_front", "move_to_back", "remove", "rotate", "pop_back", "pop_front", "append",
                "prepend"]:
         n = min(N, 5)
-        out.append(Job("C08", "harness.c08", "eq_depth", {"op": op, "n": n}, timeout=300,
+        out.append(Job("C08", "harness.c08", "eq_depth", {"op": op, "n": n}, timeout=T,
                        name="eq_depth[%s,n=%d]" % (op, n)))
     return out
